@@ -27,9 +27,10 @@ def fmtLocalOutcome : Local.PC → String
   | .failed => "AssertionError"
   | _ => "running"
 
-def runLocal (fixed : Bool) (ks : List Kind) (sched : List Nat) : String :=
+def runLocal (fixed : Bool) (ks : List Kind) (sched : List Nat) (preset : Bool := false) : String :=
   let cfg : Local.Cfg := { kind := kindOf ks, recheck := fixed }
-  let (s, labels) := traceLocal cfg Local.init sched []
+  let s0 := if preset then Local.initWithLock 1000 else Local.init
+  let (s, labels) := traceLocal cfg s0 sched []
   let outs := (List.range ks.length).map (fun t => fmtLocalOutcome (s.pc t))
   let lock := match s.held with | none => "free" | some h => toString h
   s!"{",".intercalate labels} ; {",".intercalate (s.calls.reverse.map fmtCall)} ; uid={fmtId s.uploadId} ; {",".intercalate outs} ; lock={lock}"
@@ -43,9 +44,9 @@ def fmtDistOutcome : Dist.PC → String
   | .failed => "AssertionError"
   | _ => "running"
 
-def runDist (ks : List Kind) (ws : List Nat) (sched : List Nat) : String :=
+def runDist (ks : List Kind) (ws : List Nat) (sched : List Nat) (leftover : Option Nat := none) : String :=
   let cfg : Dist.Cfg := { kind := kindOf ks, worker := fun t => ws.getD t 0 }
-  let (s, labels) := traceDist cfg Dist.init sched []
+  let (s, labels) := traceDist cfg (Dist.initAfterPrep leftover) sched []
   let outs := (List.range ks.length).map (fun t => fmtDistOutcome (s.pc t))
   let nw := (ws.foldl max 0) + 1
   let wids := (List.range nw).map (fun w => fmtId (s.wid w))
@@ -89,6 +90,17 @@ def run (args : List String) : Option String :=
     let ks ← parseList? parseKind? ks
     let sched ← parseList? parseNat? sched
     pure (runLocal fixed ks sched)
+  | ["local", fixed, ks, sched, "P"] => do
+    let fixed ← parseBool? fixed
+    let ks ← parseList? parseKind? ks
+    let sched ← parseList? parseNat? sched
+    pure (runLocal fixed ks sched true)
+  | ["dist", ks, ws, sched, left] => do
+    let ks ← parseList? parseKind? ks
+    let ws ← parseList? parseNat? ws
+    let sched ← parseList? parseNat? sched
+    let left ← if left = "S" then some (some 99) else if left = "N" then some none else none
+    pure (runDist ks ws sched left)
   | ["dist", ks, ws, sched] => do
     let ks ← parseList? parseKind? ks
     let ws ← parseList? parseNat? ws
